@@ -192,6 +192,14 @@ def make_cases(ctx):
         usage.append(("out-of-domain:%s.%s=%s" % (sec, key, val), dict(noyaml, **{".thailint.yaml": "%s:\n  enabled: true\n  %s: %s\n" % (sec, key, val)}), [], [cmd], ["."]))
         if cmd in ("nesting", "srp"):
             usage.append(("out-of-domain:%s.python.%s=%s" % (sec, key, val), dict(noyaml, **{".thailint.yaml": "%s:\n  python:\n    %s: %s\n" % (sec, key, val)}), [], [cmd], ["."]))
+    # a threshold that is no number at all (text, list, null): no file can be judged with it
+    for cmd, sec, key in [("nesting", "nesting", "max_nesting_depth"), ("srp", "srp", "max_methods"), ("srp", "srp", "max_loc"), ("magic-numbers", "magic-numbers", "max_small_integer"),
+                          ("dry", "dry", "min_duplicate_lines"), ("dry", "dry", "min_occurrences"), ("stringly-typed", "stringly-typed", "min_occurrences"),
+                          ("stringly-typed", "stringly-typed", "min_values_for_enum"), ("pipeline", "collection-pipeline", "min_continues"),
+                          ("stateless-class", "stateless-class", "min_methods"), ("method-property", "method-property", "max_body_statements"),
+                          ("magic-numbers", "magic-numbers", "allowed_numbers")]:
+        for label, val in (("text", "abc"), ("list", [1]), ("null", None)) if key != "allowed_numbers" else (("scalar", 5),):
+            usage.append(("non-numeric-threshold:%s.%s:%s" % (sec, key, label), dict(noyaml, **{".thailint.json": json.dumps({sec: {"enabled": True, key: val}})}), [], [cmd], ["."]))
     for name, files, pre, argv, targets in usage:
         cases.append({"kind": "usage", "files": files, "pre": pre, "argv": argv, "targets": targets, "id": "usage:" + name})
     return cases
